@@ -16,12 +16,16 @@ ASSUME \A i \in 1..NTraces : TLCSet(100 + i, 0)
 T == Traces[tid]
 E == T.events[l]
 
-TraceInit == /\ tid \in 1..NTraces /\ l = 1 /\ Init /\ n = T.n /\ raiseAt = T.raiseAt
+TraceInit == /\ tid \in 1..NTraces /\ l = 1 /\ Init /\ n = T.n /\ raiseAt = T.raiseAt /\ failAt = T.failAt
 Ev(name) == l <= Len(T.events) /\ E.e = name /\ l' = l + 1 /\ UNCHANGED tid
 Silent == UNCHANGED <<tid, l>>
 
 TraceNext ==
-  \/ (Ev("send_start") /\ MSendStart)
+  \/ (Ev("send_start") /\ MSendStart /\ failAt # 1)
+  \/ (Ev("send_fail") /\ MSendStart /\ failAt = 1)
+  \/ (Ev("send_fail") /\ MSendBody /\ failAt = sends + 1)
+  \/ (Ev("send_fail") /\ MSendFinal /\ failAt = sends + 1)
+  \/ (Ev("sendfailed") /\ MSendFailed)
   \/ (Ev("spawn_wait") /\ MSpawn)
   \/ (Ev("anext") /\ MTop /\ ~clientClosed)
   \/ (Silent /\ MTop /\ clientClosed)
@@ -29,10 +33,10 @@ TraceNext ==
   \/ (Ev("closed") /\ E.r = "end" /\ MEnd)
   \/ (Ev("closed") /\ E.r = "raise" /\ MProducerRaise)
   \/ (Ev("release") /\ MRelease /\ E.r = GenSuspended)
-  \/ (Ev("send_body") /\ MSendBody /\ cur = E.x)
+  \/ (Ev("send_body") /\ MSendBody /\ cur = E.x /\ failAt # sends + 1)
   \/ (Silent /\ MSent)
   \/ (Ev("cancel_wait") /\ MFin)
-  \/ (Ev("send_final") /\ MSendFinal)
+  \/ (Ev("send_final") /\ MSendFinal /\ failAt # sends + 1)
   \/ (Ev("return") /\ MReturn)
   \/ (Ev("raise") /\ MRaise)
   \/ (Silent /\ WStart)
